@@ -981,6 +981,7 @@ type swamp struct {
 	closeMutex      sync.Mutex // mutex for the close function
 	destroyed       bool       // guarded by closeMutex; true once Destroy() has begun teardown
 	createMu        sync.Mutex // serializes CreateTreasure to prevent dual-creation races
+	buildBeaconMu   sync.Mutex // serializes the on-demand build of the ordered indexes
 
 	// capMu serialises Cap-bearing state-mutating operations
 	// (ShiftMatching with Cap, PatchExpired with Cap) on this swamp.
@@ -3148,6 +3149,11 @@ func (s *swamp) treasuresForBeacon(bc BeaconType) map[string]treasure.Treasure {
 }
 
 func (s *swamp) buildBeacon(beaconASC beacon.Beacon, beaconDESC beacon.Beacon, bc BeaconType) {
+
+	// Two requests that need the same not-yet-built index must not build it twice at the same
+	// time: both would pass the IsInitialized check and both would push every record.
+	s.buildBeaconMu.Lock()
+	defer s.buildBeaconMu.Unlock()
 
 	// build the index only if it is not initialized
 	if beaconASC.IsInitialized() && beaconDESC.IsInitialized() {
